@@ -28,7 +28,22 @@ compatible  all ordered pairs (A, B) of the pair catalogue (quick: all leaves + 
             completeness  for the pairings the statement lists, when the reference `must_pass(specA, specB)` (written from
                           the two specs) says the value sets are nested, compatible() must not raise.
 
+commands    CommandType(argument, result) over None + 8 member types (81 types) runs through rebuild / copy / clientcopy (datainfo,
+            presence of argument / result, equivalence of the argument and of the result type on all their probes), the
+            identity walk and the isolation sub-check; 64 command types are part of the compatible() pair catalogue.
+scaled grid the limit-grid family of vf.harness.c02.scaled_grid_types (limits -L..L with L = n*scale as product and as the
+            short decimal literal, every n of a range, 5 (thorough 6) inexact scales, top level and nested) is part of
+            rebuild / copy / clientcopy, so that limit/scale falls below, on and above the integer.
+
 Oracle calibration (weaker readings taken):
+  * commands: A.compatible(B) is read as the code documents it and as proxy.py uses it - a command of type A stands in for
+    one of type B: every valid argument of A must be a valid argument of B, every valid result of B must be a valid result
+    of A; an absent argument / result only matches an absent one; a command and a value type have no common values.
+    Completeness for commands is demanded only when both directions are nested by the narrow must_pass reference and
+    confirmed with witnesses against the real validate.
+  * signatures of accept/refuse differences at a numeric leaf carry the input class of the probe relative to the spec's
+    limits (inside-limits / one-step-outside / less-than-one-step-outside / beyond-one-step; outside-limits), because a
+    wrong limit and float noise in the one-step tolerance are different defects.
   * "equivalent" = same JSON datainfo + same accept/refuse + == results + same export / text forms.  The *class* of a
     refusal (RangeError vs WrongTypeError, or a stray exception) is not compared; repr() and the enum name are not part
     of equivalence (the name is not exported).
@@ -57,7 +72,22 @@ from vf.catalog import types as T, values as V
 from vf.harness import c02 as H
 
 PROPERTY = 'C03'
-build = H.build
+
+
+def build(spec):
+    """H.build extended by ('command', argument spec | None, result spec | None)"""
+    if spec[0] == 'command':
+        from frappy.datatypes import CommandType
+        return CommandType(build(spec[1]) if spec[1] else None, build(spec[2]) if spec[2] else None)
+    return H.build(spec)
+
+
+def sstr(spec):
+    if spec is None:
+        return 'None'
+    if spec[0] == 'command':
+        return f'command({sstr(spec[1])} -> {sstr(spec[2])})'
+    return T.sstr(spec)
 
 
 # ---------------------------------------------------------------------------------------------
@@ -123,9 +153,13 @@ def client_flags(dt):
 
 def nodes(dt, path=''):
     """[(path, DataType node)] of a datatype tree, root first"""
-    from frappy.datatypes import ArrayOf, TupleOf, StructOf
+    from frappy.datatypes import ArrayOf, TupleOf, StructOf, CommandType
     res = [(path, dt)]
-    if isinstance(dt, ArrayOf):
+    if isinstance(dt, CommandType):
+        for role in ('argument', 'result'):
+            if getattr(dt, role) is not None:
+                res += nodes(getattr(dt, role), f'{path}/{role}')
+    elif isinstance(dt, ArrayOf):
         res += nodes(dt.members, path + '/m')
     elif isinstance(dt, TupleOf):
         for i, m in enumerate(dt.members):
@@ -138,7 +172,9 @@ def nodes(dt, path=''):
 
 def spec_at(spec, path):
     for step in [s for s in path.split('/') if s]:
-        if spec[0] == 'array':
+        if spec[0] == 'command':
+            spec = spec[1] if step == 'argument' else spec[2]
+        elif spec[0] == 'array':
             spec = spec[1]
         elif spec[0] == 'tuple':
             spec = spec[1][int(step)]
@@ -223,7 +259,8 @@ def equivalent_on(part, spec, p, q, entry, x, like):
 def localise_spec(spec, fails):
     """innermost sub-spec for which `fails(sub-spec)` still holds"""
     k = spec[0]
-    subs = [spec[1]] if k == 'array' else list(spec[1]) if k == 'tuple' else [m for _, m in spec[1]] if k == 'struct' else []
+    subs = [spec[1]] if k == 'array' else list(spec[1]) if k == 'tuple' else [m for _, m in spec[1]] if k == 'struct' else \
+        [m for m in spec[1:3] if m] if k == 'command' else []
     for sub in subs:
         try:
             bad = fails(sub)
@@ -248,8 +285,27 @@ def make_pair(spec, mode, builder=None):
     raise ValueError(mode)
 
 
+def probe_class(spec, x, entry):
+    """input class of a probe at a numeric leaf relative to the limits of the spec (part of the signature: a wrong limit
+    shows inside the limits, float noise in the one-step tolerance of a scaled type shows exactly one step outside)"""
+    k = spec[0]
+    if isinstance(x, bool) or not isinstance(x, (int, float)) or x != x:
+        return ''
+    if k == 'scaled':
+        scale, lo, hi = T.scaled_limits(spec)
+        n = x if entry == 'wire' else x / scale
+        nlo, nhi = round(lo / scale), round(hi / scale)
+        dist = max(nlo - n, n - nhi, 0)
+        return ':inside-limits' if dist == 0 else ':one-step-outside' if abs(dist - 1) < 1e-6 else \
+            ':less-than-one-step-outside' if dist < 1 else ':beyond-one-step'
+    if k in ('double', 'int'):
+        lo, hi = T.double_limits(spec)[:2] if k == 'double' else T.int_limits(spec)
+        return ':inside-limits' if lo <= x <= hi else ':outside-limits'
+    return ''
+
+
 def equivalence(part, spec, mode, only_case=None, builder=None, name=None):
-    tname = name or T.sstr(spec)
+    tname = name or sstr(spec)
     try:
         p, q = make_pair(spec, mode, builder)
     except Exception as e:
@@ -258,7 +314,6 @@ def equivalence(part, spec, mode, only_case=None, builder=None, name=None):
                        f'{tname}: {mode} raised {type(e).__name__}: {e}')
         return
     part.transitions += 2
-    like = client_flags(p) == client_flags(q) or not has_optional(spec)
     if only_case is None or only_case.get('what') == 'datainfo':
         part.evaluations += 1
         part.traces += 1
@@ -272,36 +327,61 @@ def equivalence(part, spec, mode, only_case=None, builder=None, name=None):
             part.violation(f'C03:{mode}:{sub[0] if builder is None else type(p).__name__}:datainfo-differs',
                            {'check': mode, 'spec': T.tojson(spec), 'special': name, 'what': 'datainfo'},
                            f'{tname}: datainfo of the original {dp[1]!r}, after {mode} {dq[1]!r}')
-    seen = set()
-    for entry in ('wire', 'drv'):
-        if only_case is not None and only_case.get('entry') != entry:
-            continue
-        for x, nbad in (cands(spec, entry) if only_case is None else [(V.dec(only_case['x']), 1)]):
-            key = (entry, repr(x))
-            if key in seen:
+    if spec[0] == 'command':
+        # a command has no values of its own: its argument and result types must be equivalent (or both absent)
+        parts = []
+        for role, sub in (('argument', spec[1]), ('result', spec[2])):
+            pm, qm = getattr(p, role, None), getattr(q, role, None)
+            if sub is None or qm is None or pm is None:
+                part.evaluations += 1
+                part.outcomes[f'{mode}:command:{role}:{"both-absent" if pm is None and qm is None else "presence-differs"}'] += 1
+                if (pm is None) != (qm is None) and (only_case is None or only_case.get('what') == 'datainfo'):
+                    part.violation(f'C03:{mode}:command:{role}-presence-differs',
+                                   {'check': mode, 'spec': T.tojson(spec), 'special': name, 'what': 'datainfo'},
+                                   f'{tname}: {role} of the original {pm!r}, after {mode} {qm!r}')
                 continue
-            seen.add(key)
-            part.evaluations += 1
-            part.states += 1
-            res = equivalent_on(part, spec, p, q, entry, x, like)
-            if res:
-                def fails(sub, x=x, entry=entry):
-                    a, b = make_pair(sub, mode)
-                    hit = False
-                    for sx in [x] + [c for _, c in H.children(spec, x)] + probes(sub, entry, False):
-                        if equivalent_on(core.Part(), sub, a, b, entry, sx, like):
-                            hit = True
-                            break
-                    return hit
-                sub = localise_spec(spec, fails) if builder is None else spec
-                part.violation(f'C03:{mode}:{sub[0] if builder is None else type(p).__name__}:{res[0]}:{res[1]}',
-                               {'check': mode, 'spec': T.tojson(spec), 'special': name, 'entry': entry, 'x': V.enc(x)},
-                               f'{tname} vs its {mode} ({T.sstr(sub)} is the innermost part behaving differently), '
-                               f'{entry} probe {x!r}: {res[2]}')
-            elif nbad:
-                part.nontrivial += 1
+            parts.append((role, sub, pm, qm))
+    else:
+        parts = [(None, spec, p, q)]
+    nprobes = 0
+    for role, pspec, pp, qq in parts:
+        if only_case is not None and only_case.get('role') != role:
+            continue
+        like = client_flags(pp) == client_flags(qq) or not has_optional(pspec)
+        seen = set()
+        for entry in ('wire', 'drv'):
+            if only_case is not None and only_case.get('entry') != entry:
+                continue
+            for x, nbad in (cands(pspec, entry) if only_case is None else [(V.dec(only_case['x']), 1)]):
+                key = (entry, repr(x))
+                if key in seen:
+                    continue
+                seen.add(key)
+                part.evaluations += 1
+                part.states += 1
+                res = equivalent_on(part, pspec, pp, qq, entry, x, like)
+                if res:
+                    hitprobe = {}
+
+                    def fails(sub, x=x, entry=entry, pspec=pspec, like=like, hitprobe=hitprobe):
+                        a, b = make_pair(sub, mode)
+                        for sx in [x] + [c for _, c in H.children(pspec, x)] + probes(sub, entry, False):
+                            if equivalent_on(core.Part(), sub, a, b, entry, sx, like):
+                                hitprobe[sub] = sx
+                                return True
+                        return False
+                    sub = localise_spec(pspec, fails) if builder is None else pspec
+                    cls = probe_class(sub, hitprobe.get(sub, x) if sub is not pspec else x, entry)
+                    part.violation(f'C03:{mode}:{sub[0] if builder is None else type(p).__name__}:{res[0]}:{res[1]}{cls}',
+                                   {'check': mode, 'spec': T.tojson(spec), 'special': name, 'role': role, 'entry': entry,
+                                    'x': V.enc(x)},
+                                   f'{tname} vs its {mode} ({sstr(sub)} is the innermost part behaving differently), '
+                                   f'{(role + " ") if role else ""}{entry} probe {x!r}: {res[2]}')
+                elif nbad:
+                    part.nontrivial += 1
+        nprobes += len(seen)
     if part.evaluations % 7 == 0:
-        part.sample({'check': mode, 'type': tname, 'probes': len(seen)})
+        part.sample({'check': mode, 'type': tname, 'probes': nprobes})
 
 
 # ---------------------------------------------------------------------------------------------
@@ -356,7 +436,7 @@ def objclass(obj):
 
 
 def check_shared(part, spec, builder=None, name=None):
-    tname = name or T.sstr(spec)
+    tname = name or sstr(spec)
     dt = (builder or build)(spec)
     c = dt.copy()
     part.evaluations += 1
@@ -447,6 +527,11 @@ def mutations(node):
 def observe(part, dt, spec):
     """everything the statement lets us see of a datatype: datainfo, repr, behaviour on valid + bad wire probes"""
     obs = [json.dumps(outcome(dt.export_datatype), sort_keys=True, default=repr), repr(dt)]
+    if spec[0] == 'command':
+        for role, sub in (('argument', spec[1]), ('result', spec[2])):
+            member = getattr(dt, role, None)
+            obs.append([role] + (observe(part, member, sub) if sub is not None and member is not None else [repr(member)]))
+        return obs
     for x in probes(spec, 'wire', deep=False):
         part.transitions += 1
         o = outcome(lambda: dt.validate(dt.import_value(x)))
@@ -458,7 +543,7 @@ def observe(part, dt, spec):
 
 
 def isolation(part, spec, only_case=None, builder=None, name=None):
-    tname = name or T.sstr(spec)
+    tname = name or sstr(spec)
     mk = builder or build
     dt0 = mk(spec)
     base = {'orig': observe(part, dt0, spec), 'copy': observe(part, dt0.copy(), spec)}
@@ -539,6 +624,26 @@ COMPAT_LEAVES = [
 ]
 
 
+def command_types():
+    """CommandType(argument, result) for the rebuild / copy / isolation sub-checks: every (argument, result) combination of
+    None and 8 member types (leaf with unit, enum, scaled, UTF-8 string, struct with optional member, array, tuple)"""
+    i09, eab = ('int', 0, 9), ('enum', (('a', 1), ('b', 2)))
+    members = [None, i09, eab, ('scaled', 0.1, 0.0, 10.0), ('string', 0, None, True),
+               ('double', 0.0, 10.0, None, None, (('unit', 'K/$'), ('fmtstr', '%.3f'))),
+               ('struct', (('a', i09), ('b', eab)), ('b',)), ('array', ('double', 0.0, 10.0, None, None), 0, 3),
+               ('tuple', (('bool',), ('blob', 0, 4)))]
+    return [('command', a, r) for a in members for r in members]
+
+
+def command_pair_types():
+    """commands of the compatible() pair catalogue: every (argument, result) combination of None and 7 member types that
+    are nested in each other in various ways"""
+    i09, i01, d010 = ('int', 0, 9), ('int', 0, 1), ('double', 0.0, 10.0, None, None)
+    members = [None, i09, i01, d010, ('string', 0, 3, False), ('tuple', (i09, d010)), ('tuple', (i01, d010)),
+               ('struct', (('a', i01), ('b', ('bool',))), ('b',))]
+    return [('command', a, r) for a in members for r in members]
+
+
 def pair_types(tier):
     i09, i01, d010, dunl = ('int', 0, 9), ('int', 0, 1), ('double', 0.0, 10.0, None, None), ('double', None, None, None, None)
     sc, bo = ('scaled', 0.1, 0.0, 10.0), ('bool',)
@@ -562,8 +667,9 @@ def pair_types(tier):
              ('struct', (('a', i01), ('b', bo)), ('b',)), ('struct', (('a', i09), ('b', bo)), ())]
     for c in inner:
         res += [('array', c, 0, 2), ('array', c, 1, 1), ('tuple', (i09, c)), ('struct', (('a', c), ('b', i09)), ('b',))]
+    res += command_pair_types()
     if tier == 'thorough':
-        res += T.all_types('thorough', 3) + H.ext_types()
+        res += T.all_types('thorough', 3) + H.ext_types() + command_types()
     seen, out = set(), []
     for t in res:
         if t not in seen:
@@ -580,6 +686,12 @@ def must_pass(a, b):
     """True when the statement obliges A.compatible(B) to pass (supported pairing, value sets nested); else False =
     no obligation.  Written from the two specs only."""
     ka, kb = a[0], b[0]
+    if ka == 'command' or kb == 'command':
+        if ka != kb:
+            return False
+        # arguments flow from the first to the second, results from the second back to the first
+        return ((a[1] is None and b[1] is None) or (a[1] is not None and b[1] is not None and must_pass(a[1], b[1]))) and \
+            ((a[2] is None and b[2] is None) or (a[2] is not None and b[2] is not None and must_pass(b[2], a[2])))
     if ka == 'double' and kb == 'double':
         la, ha = T.double_limits(a)[:2]
         lb, hb = T.double_limits(b)[:2]
@@ -669,7 +781,22 @@ class Compat:
         return list(res.values())
 
     def refused(self, a, b):
-        """[(value of A, exception name)] refused by B.validate"""
+        """[(value of A, exception name)] refused by B.validate.  Commands: [(('argument', value of A.argument), exc)]
+        refused by B.argument plus [(('result', value of B.result), exc)] refused by A.result (a command of the first
+        type stands in for one of the second: it is called with the first's arguments and hands back the second's
+        results); an absent argument / result only matches an absent one; a command and a value type never match"""
+        if a[0] == 'command' or b[0] == 'command':
+            if a[0] != b[0]:
+                return [(('kind', f'{a[0]} vs {b[0]}'), 'no common values')]
+            res = []
+            for role, x, y in (('argument', a[1], b[1]), ('result', b[2], a[2])):
+                if x is None and y is None:
+                    continue
+                if x is None or y is None:
+                    res.append(((role, 'absent on one side only'), 'presence'))
+                else:
+                    res += [((role, v), exc) for v, exc in self.refused(x, y)]
+            return res
         dtb = self.obj(b)
         res = []
         for v in self.witnesses(a, b):
@@ -679,12 +806,21 @@ class Compat:
                 res.append((v, o[1]))
         return res
 
+    @staticmethod
+    def witness_text(a, b, w):
+        if a[0] == 'command' == b[0]:
+            role, v = w
+            if role == 'argument':
+                return f'{v!r} is valid as argument of the first and refused as argument of the second'
+            return f'{v!r} is valid as result of the second and refused as result of the first'
+        return f'{w!r} is valid for the first and refused by the second'
+
     def verdict(self, a, b):
         self.part.transitions += 1
         return outcome(self.obj(a).compatible, self.obj(b))
 
     def sub_pairs(self, a, b):
-        if a[0] != b[0]:
+        if a[0] != b[0] or a[0] == 'command':
             return []
         if a[0] == 'array':
             return [(a[1], b[1])]
@@ -719,10 +855,11 @@ class Compat:
                 sa, sb = self.localise(a, b, fails)
                 wv, wexc = self.refused(sa, sb)[0]
                 shape = H.shape(sa, wv) if sa[0] == 'struct' else sa[0]
-                part.violation(f'C03:compatible:{shape}:passes-into-{KINDCLASS.get(sb[0], sb[0])}:valid-value-refused',
+                what = f'valid-{wv[0]}-refused' if sa[0] == 'command' == sb[0] else 'valid-value-refused'
+                part.violation(f'C03:compatible:{shape}:passes-into-{KINDCLASS.get(sb[0], sb[0])}:{what}',
                                case,
-                               f'{T.sstr(a)} .compatible( {T.sstr(b)} ) returns, but {ref[0][0]!r} is valid for the first and '
-                               f'refused by the second ({ref[0][1]}); innermost such pair: {T.sstr(sa)} -> {T.sstr(sb)}, '
+                               f'{sstr(a)} .compatible( {sstr(b)} ) returns, but {self.witness_text(sa, sb, ref[0][0])} '
+                               f'({ref[0][1]}); innermost such pair: {sstr(sa)} -> {sstr(sb)}, '
                                f'value {wv!r} ({wexc}); {len(ref)} witnesses')
         else:
             must = must_pass(a, b)
@@ -733,16 +870,16 @@ class Compat:
                 ref = self.refused(a, b)
                 if ref:
                     part.extra['reference_disagreements'] += 1
-                    part.notes.append(f'must_pass({T.sstr(a)}, {T.sstr(b)}) but {ref[0][0]!r} is refused by the second')
+                    part.notes.append(f'must_pass({sstr(a)}, {sstr(b)}) but {ref[0][0]!r} is refused by the second')
                     return
                 sa, sb = self.localise(a, b, lambda x, y: must_pass(x, y) and self.verdict(x, y)[0] != 'ok')
                 part.violation(f'C03:compatible:{sa[0]}:raises-for-nested-{KINDCLASS.get(sb[0], sb[0]) if sa[0] != sb[0] else "same-kind"}',
                                case,
-                               f'{T.sstr(a)} .compatible( {T.sstr(b)} ) raises {v[1]} although every valid value of the first '
-                               f'({len(self.witnesses(a, b))} witnesses tried) is valid for the second; innermost such pair: '
-                               f'{T.sstr(sa)} -> {T.sstr(sb)}')
+                               f'{sstr(a)} .compatible( {sstr(b)} ) raises {v[1]} although every valid value of the first '
+                               f'(witnesses from both catalogues tried) is valid for the second; innermost such pair: '
+                               f'{sstr(sa)} -> {sstr(sb)}')
         if part.evaluations % 4999 == 1:
-            part.sample({'check': 'compatible', 'a': T.sstr(a), 'b': T.sstr(b), 'verdict': v[0] if v[0] == 'ok' else v[1]})
+            part.sample({'check': 'compatible', 'a': sstr(a), 'b': sstr(b), 'verdict': v[0] if v[0] == 'ok' else v[1]})
 
 
 # ---------------------------------------------------------------------------------------------
@@ -793,9 +930,12 @@ def shard_compat(shard):
 
 
 def run(ctx):
-    types = H.all_types(ctx.tier)
+    types = H.all_types(ctx.tier) + command_types()
     n = 64
     shards = [s for s in (types[i::n] for i in range(n)) if s]
+    # mutation isolation does not depend on the value of a limit: the scaled limit-grid family is left out there
+    itypes = T.all_types(ctx.tier, 3) + H._ext_types() + command_types()
+    ishards = [s for s in (itypes[i::n] for i in range(n)) if s]
     only = getattr(ctx, 'only', None) or set()
     if not only or 'rebuild' in only:
         ctx.pmap(shard_equiv, shards, name='rebuild')
@@ -803,7 +943,7 @@ def run(ctx):
         ctx.pmap(shard_copy, shards, name='copy')
         ctx.pmap(shard_special, [[n_] for n_ in specials()], name='copy_special')
     if not only or 'isolation' in only:
-        ctx.pmap(shard_isolation, shards, name='isolation')
+        ctx.pmap(shard_isolation, ishards, name='isolation')
     ptypes = pair_types(ctx.tier)
     if not only or 'compatible' in only:
         m = min(len(ptypes), 1024)     # one first-type per shard: the cost per first type varies widely
@@ -820,7 +960,6 @@ def run(ctx):
                         bound_completed='type depth<=3 (rebuild/copy/isolation), all ordered pairs of the pair catalogue')
     ctx.assume('types, limits and values outside the catalogues are not covered',
                'generalConfig.lazy_number_validation is False (the default)',
-               'CommandType (argument/result) compatibility is not enumerated',
                'the class of a refusal (RangeError / WrongTypeError) is not part of equivalence')
 
 
